@@ -899,3 +899,23 @@ def at_limit_edges(body, count_pat, limit_pat):
         if (op, lab) in (("Ge", "true"), ("Lt", "false"), ("Eq", "true"), ("Ne", "false")):
             out.add((bi, tgt))
     return out
+
+
+def field_mut_calls(body, field):
+    """Call sites that receive a `&mut` borrow of a place containing field `field` (directly as argument)."""
+    out = []
+    for bi in sorted(body.live):
+        t = body.blocks[bi]["term"]
+        if not t or t["k"] != "call":
+            continue
+        for a in t["args"]:
+            if a.get("k") not in ("move", "copy") or "pr" in a["p"]:
+                continue
+            ds = body.defs.get(a["p"]["l"], [])
+            if len(ds) != 1 or ds[0][0] != "stmt":
+                continue
+            r = ds[0][3]
+            if r["k"] == "ref" and r.get("m") == "mut" and any(pr["k"] == "field" and pr["n"] == field for pr in r["p"].get("pr", ())):
+                out.append(Site(body, bi))
+                break
+    return out
